@@ -71,6 +71,8 @@ def index_ranges_are_read_off_the_arena(F, res, rule="A10"):
            "of the same", not bad, where="crates/ide/src/def", how="%d ranges" % n if not bad else "; ".join(bad))
 
 def run(F, res, tier):
+    from rules import c14 as _c14e
+    _c14e.one_position_encoding(F, res, rule="A12")   # a range means what the client reads: the announced position encoding is the one implemented
     from rules import c14 as _c14u
     _c14u.text_positions_are_counted_in_bytes(F, res, rule="A11", crates=('syntax', 'ide', 'glas'))   # engine U: every reported range is made of byte offsets of its document
     # ---- A1
